@@ -69,19 +69,14 @@ def disjoint_store():
 
 
 def reset_shared():
-    st = shared_store()
-    st.graphs = nx.Graph()
-    st.start_id = 1
-    if not _lock_ok(st.lock):
-        st.lock = threading.Lock()
+    # a fresh store is whatever the library's own constructor builds (the harness does not re-create its containers)
+    NetworkXGraphStorage.storage_instance = None
+    shared_store()
 
 
 def reset_disjoint():
-    st = disjoint_store()
-    st.graphs = defaultdict(nx.Graph)
-    st.graph_node_ids = defaultdict(constant_factory(1))
-    if not _lock_ok(st.lock):
-        st.lock = threading.Lock()
+    NetworkXGraphStorageDisjoint.storage_instance = None
+    disjoint_store()
 
 
 def _lock_ok(lock):
@@ -117,10 +112,11 @@ def snapshot_disjoint():
 def restore_disjoint(snap):
     st = disjoint_store()
     gs, ids = snap
-    st.graphs = defaultdict(nx.Graph)
+    # keep the containers the library created (their default factories are the library's business); refill them
+    st.graphs.clear()
     for k, g in gs.items():
         st.graphs[k] = g.copy()
-    st.graph_node_ids = defaultdict(constant_factory(1))
+    st.graph_node_ids.clear()
     st.graph_node_ids.update(ids)
 
 
